@@ -29,8 +29,8 @@ func init() {
 	engine.Register(&engine.Check{
 		ID:    "C01",
 		Title: "Programs evaluate to the result ECMAScript 5 prescribes",
-		Rule: "every program of five generator families (A control skeletons, B binding histories, C calls/arguments/constructors, " +
-			"D evaluation order, E conditionally evaluated statement-head expressions) is enumerated completely within its bound (choice vectors of engine.Explore / full products); each " +
+		Rule: "every program of six generator families (A control skeletons, B binding histories, C calls/arguments/constructors, " +
+			"D evaluation order, E conditionally evaluated statement-head expressions, L label-name reuse across functions/eval/siblings) is enumerated completely within its bound (choice vectors of engine.Explore / full products); each " +
 			"program text is distinct; it is run on otto through Run(string), Compile+Run, ParseFile+Run(*ast.Program), Eval, and a " +
 			"Script compiled on runtime A run on fresh runtimes B and C, and compared with ref/js (global code; eval code for the Eval " +
 			"route): host-call sequence with canonical arguments, completion value, uncaught-exception class. A case is non-trivial " +
@@ -44,6 +44,7 @@ func init() {
 			{Name: "C", Run: runC},
 			{Name: "Cnew", Run: runCnew},
 			{Name: "E", Run: runE},
+			{Name: "L", Run: runL},
 			{Name: "witness", Run: runWitness, Solo: true},
 		},
 		Assumptions: []string{
